@@ -77,45 +77,47 @@ Proof. split; vm_compute; reflexivity. Qed.
 
 Definition all_aargs : list aarg := AAuto :: map ACode all_codes.
 
-(* for one (method, absorb) request: the flags handed to Tensor(left_inds=...)
-   are sound w.r.t. what the resolved driver returns *)
-Definition isom_sound_entry (m : meth) (a : aarg) : bool :=
+(* for one (method, absorb) request on a matrix of shape class `sh`: the flags
+   handed to Tensor(left_inds=...) are sound w.r.t. what the resolved driver returns *)
+Definition isom_sound_entry (m : meth) (sh : shape) (a : aarg) : bool :=
   let '(m', c) := parse_method_absorb m a true in
   let '(fl, fr) := parse_isom m a in
-  match driver_returns m' c with
+  match driver_returns m' sh c with
   | None => true                      (* rejected: no tensor is built *)
   | Some (l, _, r) =>
       (negb fl || lfac_eqb l LU || lfac_eqb l LNone) && (negb fr || rfac_eqb r RVH || rfac_eqb r RNone)
   end.
 
-Definition honours_absorb (m : meth) : bool :=
-  negb (meth_eqb m MCholesky || meth_eqb m MPolarLeft || meth_eqb m MPolarRight).
+(* the only (method, shape) pairs for which a flagged factor is not an isometry:
+   the unitary-like factor W VH of a polar decomposition of a non-square matrix *)
+Definition polar_non_square (m : meth) (sh : shape) : bool :=
+  (meth_eqb m MPolarRight && (shape_id sh =? shape_id Wide)) || (meth_eqb m MPolarLeft && (shape_id sh =? shape_id Tall)).
 
-Lemma isom_flags_sound_honouring : forall m a, In m all_meths -> In a all_aargs ->
-  honours_absorb m = true -> isom_sound_entry m a = true.
+Lemma isom_flags_sound_all : forall m sh a, In m all_meths -> In sh all_shapes -> In a all_aargs ->
+  polar_non_square m sh = false -> isom_sound_entry m sh a = true.
 Proof.
-  intros m a Hm Ha Hh.
-  assert (T : forallb (fun m => forallb (fun a => negb (honours_absorb m) || isom_sound_entry m a) all_aargs) all_meths = true)
-    by (vm_compute; reflexivity).
-  pose proof (forallb_In _ _ _ (forallb_In _ _ _ T m Hm) a Ha) as E. cbn beta in E. rewrite Hh in E. exact E.
+  intros m sh a Hm Hsh Ha Hp.
+  assert (T : forallb (fun m => forallb (fun sh => forallb (fun a => polar_non_square m sh || isom_sound_entry m sh a)
+              all_aargs) all_shapes) all_meths = true) by (vm_compute; reflexivity).
+  pose proof (forallb_In _ _ _ (forallb_In _ _ _ (forallb_In _ _ _ T m Hm) sh Hsh) a Ha) as E. cbn beta in E.
+  rewrite Hp in E. exact E.
 Qed.
 
-(* the flags are unsound for the drivers that ignore / reinterpret `absorb` (F7) *)
-Lemma isom_flags_refuted :
-  isom_sound_entry MCholesky (ACode (Some get_U_sVH)) = false
-  /\ isom_sound_entry MCholesky (ACode (Some get_Us_VH)) = false
-  /\ isom_sound_entry MPolarLeft (ACode (Some get_U_sVH)) = false
-  /\ isom_sound_entry MPolarRight (ACode (Some get_Us_VH)) = false.
-Proof. repeat split; vm_compute; reflexivity. Qed.
-
-(* default requests (absorb='auto') are sound for every method *)
-Lemma isom_flags_sound_default : forall m, In m all_meths -> isom_sound_entry m AAuto = true.
-Proof. apply forallb_In. vm_compute. reflexivity. Qed.
-
-Lemma isom_flags_sound_stmt :
-  (forall m a, In m all_meths -> In a all_aargs -> honours_absorb m = true -> isom_sound_entry m a = true)
-  /\ (forall m, In m all_meths -> isom_sound_entry m AAuto = true).
-Proof. split; [exact isom_flags_sound_honouring|exact isom_flags_sound_default]. Qed.
+(* still open in the fixed code: polar_right on a wide / polar_left on a tall matrix *)
+Lemma isom_flags_polar_non_square_refuted :
+  isom_sound_entry MPolarRight Wide AAuto = false /\ isom_sound_entry MPolarLeft Tall AAuto = false
+  /\ (forall a, In a all_aargs -> a <> ACode None ->
+        isom_sound_entry MPolarRight Wide a = false /\ isom_sound_entry MPolarLeft Tall a = false).
+Proof.
+  split; [vm_compute; reflexivity|]. split; [vm_compute; reflexivity|].
+  intros a Ha Hn.
+  assert (T : forallb (fun a => match a with ACode None => true | _ =>
+              negb (isom_sound_entry MPolarRight Wide a) && negb (isom_sound_entry MPolarLeft Tall a) end) all_aargs = true)
+    by (vm_compute; reflexivity).
+  pose proof (forallb_In _ _ _ T a Ha) as E. cbn beta in E.
+  destruct a as [|[c|]]; [| |congruence]; apply andb_true_iff in E; destruct E as [E1 E2];
+    apply negb_true_iff in E1; apply negb_true_iff in E2; split; assumption.
+Qed.
 
 (* parse_method_absorb resolves to a registered driver and a table code *)
 Definition registered (m : meth) : bool :=
@@ -136,8 +138,7 @@ Qed.
 
 Definition pure_run (calls : list (cmode * pyval)) : list Z := map (fun k => parse_renorm (fst k) (snd k)) calls.
 
-(* a history is collision-free when keys that Python considers equal
-   (True == 1, False == 0) produce the same options *)
+(* a history is collision-free when keys that the cache considers equal produce the same options *)
 Definition collision_free (calls : list (cmode * pyval)) : Prop :=
   forall k1 k2, In k1 calls -> In k2 calls -> key_eqb k1 k2 = true ->
   parse_renorm (fst k1) (snd k1) = parse_renorm (fst k2) (snd k2).
@@ -177,7 +178,21 @@ Qed.
 Lemma cache_transparent_if_collision_free : forall calls, collision_free calls -> cached_run [] calls = pure_run calls.
 Proof. intros calls H. apply cached_run_inv; [intros ? ? []|intros ? ? ? []|exact H]. Qed.
 
-(* ... and it is NOT transparent in general: renorm=True after renorm=1 (F6) *)
-Lemma cache_history_refuted :
-  exists calls, cached_run [] calls <> pure_run calls.
-Proof. exists [(RSum2, PInt 1); (RSum2, PBool true)]. vm_compute. discriminate. Qed.
+(* with typed keys, equal keys are identical calls: every history is collision free *)
+Lemma cmode_code_inj : forall a b, cmode_code a = cmode_code b -> a = b.
+Proof. intros [] []; cbn; intro H; try reflexivity; discriminate H. Qed.
+
+Lemma key_eqb_eq : forall k1 k2, key_eqb k1 k2 = true -> k1 = k2.
+Proof.
+  intros [m1 v1] [m2 v2]. unfold key_eqb. cbn [fst snd]. intro H. apply andb_true_iff in H. destruct H as [Hm Hv].
+  apply Z.eqb_eq in Hm. apply cmode_code_inj in Hm. subst m2. f_equal.
+  destruct v1, v2; cbn in Hv; try discriminate Hv; try reflexivity.
+  - apply Bool.eqb_prop in Hv. congruence.
+  - apply Z.eqb_eq in Hv. congruence.
+Qed.
+
+Lemma cache_transparent : forall calls, cached_run [] calls = pure_run calls.
+Proof.
+  intros calls. apply cache_transparent_if_collision_free.
+  intros k1 k2 _ _ H. apply key_eqb_eq in H. subst. reflexivity.
+Qed.
